@@ -448,9 +448,14 @@ void run()
             gsim::probe("soh.lin_checked");
         }
     }
-    // empty the holder so that its destructor does not wait, then destroy it
-    for (int i = 0; i < 3; i++) H->removeObject(name_of(i));
-    if (!H->empty()) gsim::fail("not_linearizable", "holder not empty after removing every name");
+    // usually empty the holder first; sometimes destroy it with entries left (its
+    // destructor then waits a bounded number of times and lets go of the objects)
+    if (gsim::knob("destroy_nonempty", 0, 3) != 0) {
+        for (int i = 0; i < 3; i++) H->removeObject(name_of(i));
+        if (!H->empty())
+            gsim::fail("not_linearizable", "holder not empty after removing every name");
+    } else
+        gsim::probe("soh.destroyed_nonempty");
     delete H;
     H = nullptr;
     {
